@@ -557,9 +557,9 @@ fn sched(r: &mut Rng, n: usize, switch_permille: u64) -> Vec<u32> {
 }
 
 fn gen_fault(r: &mut Rng, ncontents: usize, errors_only: bool) -> Fault {
-    let errs = [ErrKind::Enoent, ErrKind::Eacces, ErrKind::Eio, ErrKind::Eisdir, ErrKind::Eintr];
+    let errs = ErrKind::ALL;
     if errors_only || r.chance(1, 2) {
-        return Fault::Err(r.pick(&errs).clone());
+        return Fault::Err(r.pick(errs).clone());
     }
     match r.below(9) {
         0 => Fault::Short(r.below(4000) as usize),
@@ -660,6 +660,19 @@ fn tz_value(r: &mut Rng, sc: &Scenario) -> TzArg {
         }
         15 => TzArg::Lit(["Localtime", "LOCALTIME", "localTime", "LocalTime", ":LOCALTIME", "localtime\0", "LOCALTIME "][r.usize(7)].to_string()),
         12 => TzArg::Lit(["junk", "X", "12345", "\u{A0}UTC0", "UTC0\u{A0}", "  ", "\n", "localtime ", " localtime", " :UTC", "UTC+25", "A/../B"][r.usize(12)].to_string()),
+        16 => {
+            // more than one leading colon (exactly one is the marker; the rest belongs to the name), colon + blank
+            match r.below(8) {
+                0 => TzArg::Lit(format!("::{}", rel(r))),
+                1 => TzArg::Lit(format!("::{}", r.pick(ABS_NAMES))),
+                2 => TzArg::Lit("::".into()),
+                3 => TzArg::Lit(":::".into()),
+                4 => TzArg::Lit("::localtime".into()),
+                5 => TzArg::Lit(format!(": {}", rel(r))),
+                6 => TzArg::Lit(format!(":{} ", rel(r))),
+                _ => TzArg::Lit(format!(" :{}", rel(r))),
+            }
+        }
         13 if !sc.files.is_empty() => {
             // some path that exists, verbatim
             TzArg::Lit(r.pick(&sc.files).path.clone())
@@ -684,7 +697,7 @@ pub fn gen_c20(seed: u64) -> Scenario {
     for d in sc.dirs.clone() {
         for name in REL_NAMES {
             if r.below(1000) < density / 2 {
-                sc.files.push(FileInit { path: format!("{d}/{name}"), cid: r.usize(ncont), prev: if r.chance(1, 4) { Some(r.usize(ncont)) } else { None }, perm: if r.chance(1, 12) { Some([ErrKind::Eacces, ErrKind::Eio][r.usize(2)].clone()) } else { None } });
+                sc.files.push(FileInit { path: format!("{d}/{name}"), cid: r.usize(ncont), prev: if r.chance(1, 4) { Some(r.usize(ncont)) } else { None }, perm: if r.chance(1, 12) { Some([ErrKind::Eacces, ErrKind::Eio, ErrKind::Einval, ErrKind::KInvalidInput, ErrKind::Enotdir, ErrKind::Custom][r.usize(6)].clone()) } else { None } });
             }
         }
     }
@@ -757,7 +770,7 @@ pub fn gen_c20(seed: u64) -> Scenario {
             ops.push(match r.below(7) {
                 0 => Op::Install { path, cid: r.usize(ncont) },
                 1 => Op::Remove { path },
-                2 => Op::Chmod { path, err: if r.chance(1, 3) { None } else { Some(ErrKind::Eacces) } },
+                2 => Op::Chmod { path, err: if r.chance(1, 3) { None } else { Some([ErrKind::Eacces, ErrKind::Eacces, ErrKind::KInvalidInput, ErrKind::Eloop][r.usize(4)].clone()) } },
                 3 => Op::BeginUpgrade { path, cid: r.usize(ncont), cut: r.below(3000) as usize },
                 4 => Op::EndUpgrade { path },
                 _ => Op::AtomicReplace { path, cid: r.usize(ncont) },
@@ -1323,7 +1336,11 @@ pub fn gen_c19(seed: u64) -> Scenario {
             dirs.swap(i, r.usize(i + 1));
         }
         dirs.truncate(1 + r.usize(4));
-        ops.push(Op::Resolve { tz: TzArg::Lit(tz), dirs, slot: 7 });
+        if r.chance(1, 4) {
+            ops.push(Op::ResolveLocal { dirs, slot: 7 });
+        } else {
+            ops.push(Op::Resolve { tz: TzArg::Lit(tz), dirs, slot: 7 });
+        }
     }
     let nq = 10 + r.usize(30);
     for _ in 0..nq {
